@@ -108,6 +108,12 @@ CHECKS.update({
         note='Trusted: symnp engine, z3, the re-statement of numpy.vectorize (element-wise application by numpy.frompyfunc, output type from otypes or the first output, C truncation as an axiomatised integer application). Coordinates of the grids are concrete; float rounding of the arithmetic is outside (reals).',
         ref='DESIGN.md section 4 C15'),
 })
+CHECKS.update({
+    'C19': dict(
+        text='Every geometry class (Parallel2d, Parallel3dAxis, Parallel3dEuler with 2 and 3 angles, FanBeam, ConeBeam incl. helical pitch, cylindrical / spherical / circular detectors, source and detector shift functions, frommatrix) is built with a generic concrete initial configuration and symbolic radii / pitch / offset / translation / shifts and evaluated at symbolic angles and detector parameters (cos, sin uninterpreted with c^2+s^2=1): rotation matrix = reference (2d, Rodrigues, ZXZ), R^T R = I, det R = 1, det_point_position = refpoint + R surface, reference formulas for det_refpoint / src_position, det_to_src consistent with the source and of unit length, parallel rays independent of the detector point, orthogonal to the detector axes and equal to R normal; stacked, paired and outer-broadcast calls equal to single calls entry by entry with the documented shapes; geom[indices] gives the same vectors at the angles of the slice and leaves the original unchanged; detectors: surface(0)=0, surface_deriv = derivative of surface (forward-mode AD of the real code), unit normal orthogonal to the tangents, right-handedness, surface_measure, points at distance radius from the centre of curvature; parallel_beam_geometry / cone_beam_geometry / helical_geometry: for every angle the ray through every corner of the volume (a weaker inner point set for the cone factories, see the known finding) hits the detector inside its range.',
+        note='Trusted: symnp engine (branch sampler, polynomial normal form modulo the sqrt/sin/cos axioms, folding of constant applications with constants re-read as simple fractions within 1e-13), z3. Initial axes / init matrices are concrete generic instances. Two defects repaired (slicing), one known finding (cone factories).',
+        ref='DESIGN.md section 4 C19'),
+})
 NOT_YET = {}
 
 
